@@ -358,6 +358,19 @@ func (f *frame) callContract(st *State, callee *ssa.Function, cc *Contract, args
 	} else {
 		vc.usedContracts[name] = true
 	}
+	if f.isTop && f.c != nil && len(f.c.Shared) > 0 {
+		// other threads run between the previous step and this one
+		f.interfere(st, pos)
+	}
+	if f.isTop && f.c != nil && len(f.c.LockInv) > 0 && name == "(*sync.Mutex).Unlock" {
+		// monitor invariant: re-established before the lock is released
+		lsc := f.specCtx(st, vc.oldState)
+		lsc.bound = map[string]*Term{}
+		f.bindParams(lsc)
+		for _, li := range f.c.LockInv {
+			vc.oblige(st, "lockinv."+li.Name, lsc.evalBool(li.Expr), "monitor invariant holds when the lock is released: "+li.Src, pos, true)
+		}
+	}
 	pre := st.clone()
 	sc := &specCtx{vc: vc, st: st, old: pre, vars: map[string]Val{}, bound: map[string]*Term{}, pkg: pkgOf(callee), fn: callee}
 	bindCall(sc, callee, cc, args)
@@ -552,6 +565,20 @@ func (f *frame) callContract(st *State, callee *ssa.Function, cc *Contract, args
 		for _, g := range f.c.Guarantees {
 			vc.oblige(st, "guarantee."+g.Name, gsc.evalBool(g.Expr),
 				"guarantee across the atomic step "+short+": "+g.Src, pos, true)
+		}
+	}
+	if cc.Atomic && f.isTop && f.c != nil && len(f.c.AtAtomic) > 0 {
+		f.atAtomic(st, pre)
+	}
+	if f.isTop && f.c != nil && len(f.c.LockInv) > 0 && name == "(*sync.Mutex).Lock" {
+		// monitor invariant: holds when the lock has been acquired (every writer of
+		// the protected state holds the lock and re-establishes it before Unlock)
+		lsc := f.specCtx(st, vc.oldState)
+		lsc.bound = map[string]*Term{}
+		f.bindParams(lsc)
+		for _, li := range f.c.LockInv {
+			vc.trusted["monitor invariant assumed after Lock in "+f.fn.Name()+": "+li.Src+" (obliged before every Unlock of this function; other writers of the protected state must hold the lock)"] = true
+			vc.assumeUnder(st.reach, lsc.evalBool(li.Expr))
 		}
 	}
 	// type invariants of results
@@ -825,5 +852,68 @@ func (vc *VC) obligeTypeInv(st *State, t *Term, kind, desc string, pos token.Pos
 	sc := &specCtx{vc: vc, st: st, old: st, vars: map[string]Val{}, bound: map[string]*Term{}, pkg: pkg}
 	if g := vc.typeInvFact(sc, t); g != "true" {
 		vc.obligeAndAssume(st, kind, g, desc, pos)
+	}
+}
+
+// interfere models what other threads may do before the next step of the
+// function under contract: the locations its contract declares `shared` get
+// arbitrary new values, constrained only by its `rely` clauses (two-state).
+func (f *frame) interfere(st *State, pos token.Pos) {
+	vc := f.vc
+	c := f.c
+	old := st.clone()
+	sc := f.specCtx(st, old)
+	sc.bound = map[string]*Term{}
+	f.bindParams(sc)
+	for _, m := range c.Shared {
+		locs, all := sc.lvalues(m.Expr)
+		if all {
+			vc.havocAll(st)
+			continue
+		}
+		for _, l := range locs {
+			if l.ref == "" {
+				vc.havocHeapVar(st, l.hv)
+				continue
+			}
+			nv := vc.fresh("shared")
+			vc.declare(nv, vc.heapSort[l.hv])
+			vc.heapSet(st, l.hv, "(store "+vc.heapGet(st, l.hv)+" "+l.ref+" "+nv+")")
+			// the new value is a value of the field's type
+			vc.assume(vc.typingFact(&Term{nv, vc.heapSort[l.hv], vc.heapType[l.hv]}))
+		}
+	}
+	a := vc.fresh("alloc")
+	vc.declare(a, "Int")
+	vc.assume("(>= " + a + " " + st.alloc + ")")
+	st.alloc = a
+	rsc := f.specCtx(st, old)
+	rsc.bound = map[string]*Term{}
+	f.bindParams(rsc)
+	for _, r := range c.Rely {
+		vc.trusted["rely clause of "+f.fn.Name()+": "+r.Src+" (what other threads may do between two steps: assumed here, argued from the guarantee clauses)"] = true
+		vc.assumeUnder(st.reach, rsc.evalBool(r.Expr))
+	}
+	if !vc.interfCover {
+		vc.interfCover = true
+		if o := vc.oblige(st, "cover.interference", "false", "the rely clauses are satisfiable (vacuity guard)", pos, false); o != nil {
+			o.Cover = true
+		}
+	}
+}
+
+// atAtomic runs the at_atomic ghost assignments after an atomic step.
+func (f *frame) atAtomic(st *State, pre *State) {
+	vc := f.vc
+	sc := f.specCtx(st, pre)
+	sc.bound = map[string]*Term{}
+	f.bindParams(sc)
+	for _, g := range f.c.AtAtomic {
+		hv, _, _ := vc.ghostHV(sc.pkg, g.Name)
+		if hv == "" {
+			unsup("at_atomic: %s is not a ghost variable", g.Name)
+		}
+		v := sc.evalTerm(g.Expr)
+		vc.heapSet(st, hv, "(store "+vc.heapGet(st, hv)+" nil "+v.S+")")
 	}
 }
